@@ -32,6 +32,8 @@ type Env struct {
 
 	Tx        *txfile.Tx
 	hdrIssued bool
+
+	EverOverflow bool // some transaction enabled the overflow area on this file
 	inCommit  bool
 
 	// bookkeeping of the driver (to generate valid operations; never used for verdicts)
@@ -125,7 +127,7 @@ func StOf(st txfile.VerifState) map[string]interface{} {
 	}
 	return map[string]interface{}{
 		"slot": st.MetaActive, "txid": st.TxID, "root": st.Root, "hfl": st.HdrFL, "hwal": st.HdrWAL,
-		"hde": st.HdrDataEnd, "hme": st.HdrMetaEnd, "hmt": st.HdrMetaTot, "hmax": st.HdrMaxSize / uint64(max1(st.PageSize)),
+		"maxb": st.MaxSize, "hde": st.HdrDataEnd, "hme": st.HdrMetaEnd, "hmt": st.HdrMetaTot, "hmax": st.HdrMaxSize / uint64(max1(st.PageSize)),
 		"de": st.DataEnd, "me": st.MetaEnd, "mt": st.MetaTotal, "maxp": st.MaxPages,
 		"dfree": regs(st.DataFree), "mfree": regs(st.MetaFree), "flp": regs(st.FreelistPages), "walpg": regs(st.WALPages),
 		"wal": wal, "sh": st.Shared, "pe": st.Pending, "res": st.Reserved,
@@ -143,7 +145,18 @@ func max1(v uint) uint {
 
 // St takes the snapshot of the file (caller must own the file state).
 func (e *Env) St() map[string]interface{} {
-	return StOf(e.F.VerifSnapshot(true))
+	st := StOf(e.F.VerifSnapshot(true))
+	vol, _ := e.Disk.Snapshot()
+	st["fsz"] = len(vol) // bytes
+	st["ovf"] = e.EverOverflow
+	return st
+}
+
+func max1i(v int) int {
+	if v == 0 {
+		return 1
+	}
+	return v
 }
 
 // Lk takes the lock projection only.
@@ -412,6 +425,9 @@ func (e *Env) Begin(opts txfile.TxOptions) error {
 		return err
 	}
 	e.Tx = tx
+	if opts.EnableOverflowArea {
+		e.EverOverflow = true
+	}
 	e.TxNew, e.TxFreed, e.TxDirty, e.TxFlush = map[uint64]bool{}, map[uint64]bool{}, map[uint64]bool{}, map[uint64]bool{}
 	e.TxRoot = e.Root
 	e.Emit(core.Event{"ev": "BeginW", "err": "", "root": uint64(tx.Root()), "overflow": opts.EnableOverflowArea, "st": e.St()})
